@@ -109,6 +109,7 @@ class RoundTripLeg(object):
                 "attrs": attrs,
                 "cols": cols,
                 "extras": extras,
+                "toggled_before": draw(st.integers(0, 7)) == 0,
             }
 
         return case()
@@ -135,6 +136,16 @@ class RoundTripLeg(object):
         d = dict(case["dialect"])
         mapping = dict((k, list(vs)) for k, vs in case["attrs"])
         cols = case["cols"]
+        if case.get("toggled_before"):
+            # constants.ignore_url_escape_characters was switched on for an earlier print in this process and is
+            # off again now: it must not leave anything behind
+            from gffutils import constants
+
+            constants.ignore_url_escape_characters = True
+            try:
+                str(Feature(seqid="c", start=1, end=2, attributes=dict((k, list(v)) for k, v in mapping.items()), dialect=d))
+            finally:
+                constants.ignore_url_escape_characters = False
         f = Feature(
             seqid=cols[0], source=cols[1], featuretype=cols[2], start=cols[3], end=cols[4],
             score=cols[5], strand=cols[6], frame=cols[7],
